@@ -234,6 +234,28 @@ impl<'a, R> Drop for DepthGuard<'a, R> {
     }
 }
 
+/// Map an offset in `String::from_utf8_lossy(json)` back to the offset in `json`: every maximal
+/// invalid sequence has been replaced by the three bytes of U+FFFD.
+fn lossy_offset_to_origin(json: &[u8], mut n: usize) -> usize {
+    let mut origin = 0;
+    let mut rest = json;
+    loop {
+        match std::str::from_utf8(rest) {
+            Ok(_) => return origin + n.min(rest.len()),
+            Err(e) => {
+                let valid = e.valid_up_to();
+                if n <= valid {
+                    return origin + n;
+                }
+                let invalid = e.error_len().unwrap_or(rest.len() - valid);
+                n = n.saturating_sub(valid + 3);
+                origin += valid + invalid;
+                rest = &rest[valid + invalid..];
+            }
+        }
+    }
+}
+
 fn visit_number<'de, V>(num: &ParserNumber, visitor: V) -> Result<V::Value>
 where
     V: de::Visitor<'de>,
@@ -370,9 +392,8 @@ impl<'de, R: Reader<'de>> Deserializer<R> {
             let json = self.parser.read.as_u8_slice();
 
             // get n to check trailing characters in later
-            let (n, parsed_len) = if cfg.utf8_lossy
-                && self.parser.read.next_invalid_utf8() != usize::MAX
-            {
+            let repaired = cfg.utf8_lossy && self.parser.read.next_invalid_utf8() != usize::MAX;
+            let (n, parsed_len) = if repaired {
                 // repr the invalid utf8, not need to care about the invalid UTF8 char in non-string
                 // parts, it will cause errors when parsing.
                 let repr = String::from_utf8_lossy(json);
@@ -380,13 +401,21 @@ impl<'de, R: Reader<'de>> Deserializer<R> {
             } else {
                 (val.parse_with_padding(json, cfg)?, json.len())
             };
-            self.parser.read.eat(n);
             // a value that ends beyond the parsed text was completed by the parser's own padding
             // bytes (`"` would parse as "x"): the input itself is truncated
             if n > parsed_len {
+                self.parser.read.eat(n);
                 let err = self.parser.error(EofWhileParsing);
                 self.parser.read.set_index(json.len());
                 return Err(err);
+            }
+            if repaired {
+                // `n` is an offset in the repaired text: translate it back into the input; the
+                // invalid UTF-8 inside the parsed value has been replaced and is not an error
+                self.parser.read.eat(lossy_offset_to_origin(json, n));
+                self.parser.read.check_invalid_utf8();
+            } else {
+                self.parser.read.eat(n);
             }
         } else {
             let shared = unsafe {
